@@ -561,6 +561,36 @@ let op_time (args : string list) : string =
     string_of_int (int_of_z r)
   | _ -> "BAD-ARGS"
 
+
+(* ---------- C05/C09: replay of the iteration driver ----------
+   drive <search_depth> <stop0 0/1> <root0 code or -1> | v,pv0,stop;... | brk bits | tbrk bits
+   prints: C d a b ; I d v pv0 ; ... ; B best   (pv0 / best = -1 for none) *)
+let op_drive (line : string) : string =
+  let secs = List.map String.trim (String.split_on_char '|' line) in
+  match secs with
+  | [hd; roots; brk; tbrk] ->
+    let hd = List.filter (fun s -> s <> "") (String.split_on_char ' ' hd) in
+    (match hd with
+     | [_; sd; stop0; root0] ->
+       let omove i = if i < 0 then None else Some (z_of_int i) in
+       let roots = if roots = "-" || roots = "" then [] else
+           List.map (fun s -> match String.split_on_char ',' s with
+               | [v; pv0; st] -> { M.r_val = z_of_int (int_of_string v); M.r_pv0 = omove (int_of_string pv0); M.r_stop = (st = "1") }
+               | _ -> failwith "bad root") (String.split_on_char ';' roots) in
+       let bits s = if s = "-" then [] else List.init (String.length s) (fun i -> s.[i] = '1') in
+       let root0 = int_of_string root0 in
+       let rm = if root0 < 0 then [] else [z_of_int root0] in
+       (match M.go (z_of_int (int_of_string sd)) (nat_of_int 100000) (nat_of_int 200) rm (stop0 = "1") roots (bits brk) (bits tbrk) with
+        | None -> "STUCK"
+        | Some (best, ev) ->
+          let om = function None -> "-1" | Some z -> string_of_int (int_of_z z) in
+          String.concat " ; " (List.map (function
+              | M.ECall (d, a, b) -> Printf.sprintf "C %d %d %d" (int_of_z d) (int_of_z a) (int_of_z b)
+              | M.EInfo (d, v, pv0) -> Printf.sprintf "I %d %d %s" (int_of_z d) (int_of_z v) (om pv0)) ev
+              @ ["B " ^ om best]))
+     | _ -> "BAD-ARGS")
+  | _ -> "BAD-ARGS"
+
 (* ---------- model-driven random games ---------- *)
 
 (* playout <seed> <plies> <bias> <fen> : random legal game; bias (0..9) favours special moves *)
@@ -617,6 +647,7 @@ let dispatch (line : string) : string =
      | "g_key" -> run_key_game (rest_after line 1)
      | "pghash" -> op_pghash (rest_after line 1)
      | "kpkraw" -> op_kpkraw args
+     | "drive" -> op_drive line
      | "impset" -> op_impset args
      | "imptable" -> op_imptable args
      | "time" -> op_time args
